@@ -140,6 +140,14 @@ def run(ctx):
         ctx.violate("post:" + "+".join(sorted(names)) + ":" + sc["mode"],
                     f"real cluster {sc['hosts']}x{sc['workers']}, fault {sc['mode']} in {sc['task'] or '-'}@{sc['point'] or '-'}: {sorted(names)}; observed {ob}",
                     {"scenario": sc, "observed": ob}, clause="+".join(sorted(names)))
+    # ---- 3. teardown of the shm store itself (Manager.atexit), bound through spec/Shm.tla's AtExit action (shared engine of C08/C09)
+    from ..shm_engine import report as shm_report
+    shm_cov_before = dict(ctx.coverage)
+    shm_report(ctx, "C05")
+    shm_states = ctx.coverage.get("states", 0)
+    ctx.coverage.clear()
+    ctx.coverage.update(shm_cov_before)
+    ctx.coverage["shm_atexit_replayed_behaviours"] = True
     ended = [o for o in obs if o["outcome"] != "hang"]
     ctx.coverage.update({
         "states": r.distinct, "transitions": r.generated, "traces_validated_against_impl": len(cases),
